@@ -153,3 +153,69 @@ def explore(work, prop, clauses, modes, signature, nmax, seed, cap=None, p_fall=
                 sigs['C05.overlap'].append((d['id'], 'none', {}))
     dropped = [p['decl'] for p in progs if p.get('dropped')]
     return byid, pbyid, sigs, st, tr, dropped
+
+
+def planned_signatures(work, decls, clauses, modes, signature, name='scope'):
+    """{declaration id: set of (blame signature, provider whose failure is returned at the signature's return site | None)
+    TLC finds on the program Planner.tla PLANS for it} — what the reference design does on exactly these inputs (no Go
+    code involved)."""
+    decls = [d for d in decls if in_planner_domain(d)]
+    if not decls:
+        return {}
+    progs = [p for p in plan(work, decls, name=name + '-plan') if len(p['threads']) <= 6]
+    keep = {p['decl'] for p in progs}
+    decls = [d for d in decls if d['id'] in keep]
+    if not decls:
+        return {}
+    flags, st, tr, _ = wb.model_check(work, decls, progs, modes='none' if modes == 'none' else None, name=name + '-mc')
+    pbyid = {p['decl']: p for p in progs}
+    wanted = set(modes.split(','))
+
+    def mode_name(m):
+        return {(): 'none', ('fail',): 'fail', ('cancel',): 'cancel', ('cancel', 'fail'): 'failcancel'}[tuple(sorted(m))]
+    out = {d['id']: set() for d in decls if not pbyid.get(d['id'], {}).get('dropped')}
+    for f in flags:
+        c = f['f']['clause']
+        if c not in clauses or mode_name(f['mode']) not in wanted or f['prog'] not in out:
+            continue
+        prog = pbyid[f['prog']]
+        failing = None
+        for th in prog['threads']:
+            for ins in th:
+                if ins['op'] == 'call' and ins.get('errck') == 'ret' and ins.get('rline') == f['f']['rline']:
+                    failing = ins['p']
+        out[f['prog']].add((signature(c, prog, f['f']['rline'], f['f']['parked']), failing))
+    return out
+
+
+def generator_conformance(work, cli, decls, name='gconf'):
+    """Run the REAL generator on every declaration of the design-level exploration, extract the generated programs and
+    compare their thread structure / call order / wait sets with what Planner.tla plans (PlannerCheck.tla).
+    -> (checked, ids whose generated program is not the planned one, extracted programs by id)"""
+    decls = [d for d in decls if in_planner_domain(d)]
+    root = pl.make_scratch(work, decls, name)
+    gen = pl.generate_all(cli, root, decls)
+    ok = [d for d in decls if gen[d['id']][0] == 0]
+    refused = [d['id'] for d in decls if gen[d['id']][0] != 0]
+
+    def ex(d):
+        return d['id'], wb.extract(os.path.join(root, d['id']), d, genfile='k_band.go')
+    progs = dict(pl.pmap(ex, ok))
+    n, diff = planner_conformance(work, ok, progs, name=name + '-pc')
+    import shutil
+    shutil.rmtree(root, ignore_errors=True)
+    return n, diff, progs, refused
+
+
+def fallible_variants(d):
+    """the declaration with each single provider fallible, and with all of them fallible"""
+    out = []
+    n = len(d['providers'])
+    for k in list(range(n)) + [n]:
+        v = json.loads(json.dumps(d))
+        v['id'] = '%sf%d' % (d['id'], k)
+        v['injector'] = 'Init_' + v['id']
+        for i, p in enumerate(v['providers']):
+            p['fallible'] = (k == n) or (i == k)
+        out.append(v)
+    return out
